@@ -99,7 +99,9 @@ def inventory(tree):
         if ts:
             tuple_assigns[q] = ts
     from . import subset
+    from .exprnorm import store_counts
     return {"reflection": _reflection_count(tree), "tuple_assigns": tuple_assigns, "census": subset.census(tree),
+            "store_counts": {q: store_counts(fn) for q, fn in _iter_funcs(tree)},
             "functions": sorted(set(funcs)), "globals": sorted(set(globs)), "literal_loops": loops, "private_params": params,
             "call_positional": call_pos, "call_keywords": {k: sorted(v) for k, v in call_kw.items()}, "literal_comps": comps, "dict_comps": dict_comps}
 
@@ -321,11 +323,22 @@ def _subst(node, mapping):
 
 
 def _stores(nodes):
+    """names bound anywhere in the statements, by any construct: stores, imports, defs / classes, handlers, global / nonlocal"""
     out = set()
     for st in nodes:
         for n in ast.walk(st):
             if isinstance(n, ast.Name) and isinstance(n.ctx, (ast.Store, ast.Del)):
                 out.add(n.id)
+            elif isinstance(n, ast.alias) and n.name != "*":
+                out.add((n.asname or n.name).split(".")[0])
+            elif isinstance(n, (ast.FunctionDef, ast.AsyncFunctionDef, ast.ClassDef)):
+                out.add(n.name)
+            elif isinstance(n, ast.ExceptHandler) and n.name:
+                out.add(n.name)
+            elif isinstance(n, (ast.Global, ast.Nonlocal)):
+                out.update(n.names)
+            elif type(n).__name__ in ("MatchAs", "MatchStar") and n.name:
+                out.add(n.name)
     return out
 
 
@@ -771,8 +784,12 @@ def unroll_new_literal_loops(tree, ref_loops):
                             inner = _stores(st.body)
                             outside = {x.id for x in ast.walk(fn) if isinstance(x, ast.Name) and not any(x is y for y in ast.walk(st))}
                             local = sorted(inner - outside)
+                            taken_ = {x.id for x in ast.walk(fn) if isinstance(x, ast.Name)} | {x.arg for x in ast.walk(fn) if isinstance(x, ast.arg)}
+                            sfx = ""
+                            while any(f"{nm_}{sfx}_{k_}" in taken_ for nm_ in local for k_ in range(len(subs))):
+                                sfx += "_"          # the invented names must be new in the function
                             for k_it, m in enumerate(subs):
-                                ren = {nm_: f"{nm_}_{k_it}" for nm_ in local} if len(subs) > 1 else {}
+                                ren = {nm_: f"{nm_}{sfx}_{k_it}" for nm_ in local} if len(subs) > 1 else {}
                                 for b in st.body:
                                     nb = _subst(b, m)
                                     if ren:
@@ -817,11 +834,26 @@ def _bind_call(fn, call, skip_self):
         m[k.arg] = k.value
     for p in ps:
         if p not in m:
-            if p in dmap:
-                m[p] = dmap[p]
+            if p in dmap and _immutable_literal(dmap[p]):
+                m[p] = dmap[p]          # (a default is evaluated once, where the def stands: only a literal means the same at the call)
             else:
                 return None
+    # names bound in inner scopes of the helper (comprehension variables, lambda parameters) would capture the same name in an argument
+    inner = {t.id for x in ast.walk(fn) if isinstance(x, ast.comprehension) for t in ast.walk(x.target) if isinstance(t, ast.Name)}
+    inner |= {a.arg for x in ast.walk(fn) if isinstance(x, ast.Lambda) for a in ast.walk(x.args) if isinstance(a, ast.arg)}
+    if inner and any(isinstance(x, ast.Name) and x.id in inner for a in m.values() for x in ast.walk(a)):
+        return None
     return m
+
+
+def _immutable_literal(e):
+    if isinstance(e, ast.Constant):
+        return True
+    if isinstance(e, ast.UnaryOp) and isinstance(e.op, (ast.USub, ast.UAdd)) and isinstance(e.operand, ast.Constant):
+        return True
+    if isinstance(e, ast.Tuple):
+        return all(_immutable_literal(x) for x in e.elts)
+    return _alias.named_constant(e)
 
 
 def _rename(node, mapping):
@@ -946,6 +978,14 @@ def _by_name_safe(body, light, m, caller_groups):
         w = {q for q, a in m.items() if q != p_ and names_of(a) & origin}
         if any(isinstance(x, ast.Subscript) for x in ast.walk(arg)):
             w.add(p_)
+        base_ = arg
+        while isinstance(base_, (ast.Attribute, ast.Subscript)):
+            base_ = base_.value
+        if not isinstance(base_, ast.Name):
+            # an operator expression / display / comparison makes a NEW object at every read: the body must not change the parameter's
+            # object (the change would hit a throw-away copy) nor compare it by identity
+            if _writes_through(ast.Module(body=list(body), type_ignores=[]), {p_}):
+                return False
 
         def reads(node):
             return any(isinstance(x, ast.Name) and x.id == p_ and isinstance(x.ctx, ast.Load) for x in ast.walk(node))
@@ -1011,8 +1051,9 @@ def inline_new_helpers(tree, ref_funcs, rel=None):
     from .exprnorm import summarize   # late import: exprnorm imports core
 
     all_funcs = dict(_iter_funcs(tree))
+    skip = set(getattr(tree, "_outside_subset", ()))      # functions with constructs the engine does not read (subset.py): not undone
     new = {q: fn for q, fn in all_funcs.items() if q not in ref_funcs and q.split(".")[-1].startswith("_")
-           and not q.split(".")[-1].startswith("__") and q.count(".") <= 1}
+           and not q.split(".")[-1].startswith("__") and q.count(".") <= 1 and isinstance(fn, ast.FunctionDef) and q not in skip}
     # local helper functions: a def directly in the body of a function (a closure over the function's locals) that the reference
     # does not have.  It can be undone when the name is bound exactly once in that function (the def, made unconditionally) and
     # every mention of the name is a call of it - then each call runs this body, reading the enclosing locals as they are at
@@ -1023,7 +1064,8 @@ def inline_new_helpers(tree, ref_funcs, rel=None):
             continue
         pq = q.rsplit(".", 1)[0]
         parent = all_funcs.get(pq)
-        if parent is None or pq in nested or fn.decorator_list:
+        if parent is None or pq in nested or fn.decorator_list or not isinstance(fn, ast.FunctionDef) or q.split(".")[0] in skip \
+                or ".".join(q.split(".")[:2]) in skip:
             continue
         # the block of the enclosing function that holds the def (its body, or the body of an if / with / loop inside it)
         holder = None
@@ -1127,14 +1169,32 @@ def inline_new_helpers(tree, ref_funcs, rel=None):
         return 0
     count = 0
     uid = [0]
+    _taken_ids = {x.id for x in ast.walk(tree) if isinstance(x, ast.Name)} | {x.arg for x in ast.walk(tree) if isinstance(x, ast.arg)}
+    while any(t_.startswith("_h") and t_[2:].split("_")[0].isdigit() and int(t_[2:].split("_")[0]) > uid[0] for t_ in _taken_ids):
+        uid[0] += 1000          # the names the pass invents (`_h<n>_<name>`) must be new in the module
 
     scope = {"bound": set(), "self_ok": False, "groups": lambda: {}}
     _free = {}
 
     def free_names(fn):
+        """names the helper reads from outside itself - by scope (symtable): a comprehension variable or lambda parameter of the
+        same spelling inside the helper does not make an outer name the helper's own"""
         if id(fn) not in _free:
             own = _all_bound_names(fn)
-            _free[id(fn)] = {x.id for x in ast.walk(fn) if isinstance(x, ast.Name) and isinstance(x.ctx, ast.Load)} - own
+            coarse = {x.id for x in ast.walk(fn) if isinstance(x, ast.Name) and isinstance(x.ctx, ast.Load)} - own
+            try:
+                import symtable
+                top = symtable.symtable(ast.unparse(fn), "<helper>", "exec").get_children()[0]
+                fine = set()
+                todo = [top]
+                while todo:
+                    t_ = todo.pop()
+                    fine.update(sy.get_name() for sy in t_.get_symbols() if sy.is_global() or (sy.is_free() and t_ is top))
+                    todo.extend(t_.get_children())
+                coarse |= fine
+            except Exception:
+                coarse |= {x.id for x in ast.walk(fn) if isinstance(x, ast.Name) and isinstance(x.ctx, ast.Load)}
+            _free[id(fn)] = coarse
         return _free[id(fn)]
 
     def match(call, cls):
@@ -1144,10 +1204,12 @@ def inline_new_helpers(tree, ref_funcs, rel=None):
         f = call.func
         if isinstance(f, ast.Name) and f.id in info and not info[f.id][3] and f.id not in scope["bound"]:
             # the names the helper reads from the module must not be locals of the caller (there they would mean something else)
-            if free_names(info[f.id][0]) & scope["bound"]:
+            if free_names(info[f.id][0]) & (scope["bound"] | set(scope.get("comp", ()))):
                 return None
             return f.id, None
         if isinstance(f, ast.Name) and scope.get("q") and f"{scope['q']}.{f.id}" in nested and f"{scope['q']}.{f.id}" in info:
+            if free_names(info[f"{scope['q']}.{f.id}"][0]) & set(scope.get("comp", ())):
+                return None     # a comprehension variable at the place of the call has the spelling of a name the helper reads
             return f"{scope['q']}.{f.id}", None
         if isinstance(f, ast.Attribute) and isinstance(f.value, ast.Name) and f.value.id == "self" and cls and f"{cls}.{f.attr}" in info \
                 and scope["self_ok"]:
@@ -1159,6 +1221,23 @@ def inline_new_helpers(tree, ref_funcs, rel=None):
     class ExprInliner(ast.NodeTransformer):
         def __init__(self, cls):
             self.cls = cls
+
+        def _comp(self, n):
+            saved = scope.get("comp", ())
+            scope["comp"] = tuple(saved) + tuple(t.id for g in n.generators for t in ast.walk(g.target) if isinstance(t, ast.Name))
+            try:
+                return self.generic_visit(n)
+            finally:
+                scope["comp"] = saved
+        visit_ListComp = visit_SetComp = visit_DictComp = visit_GeneratorExp = _comp
+
+        def visit_Lambda(self, n):
+            saved = scope.get("comp", ())
+            scope["comp"] = tuple(saved) + tuple(a.arg for a in ast.walk(n.args) if isinstance(a, ast.arg))
+            try:
+                return self.generic_visit(n)
+            finally:
+                scope["comp"] = saved
 
         def visit_Call(self, n):
             nonlocal count
@@ -1538,6 +1617,13 @@ def _writes_through(st, operands):
                     b = b.value
                 if isinstance(b, ast.Name) and b.id in operands and b is not t:
                     return True
+        elif isinstance(x, (ast.Subscript, ast.Attribute)) and isinstance(x.ctx, (ast.Store, ast.Del)):
+            # the target of a for / with / comprehension / walrus
+            b = x
+            while isinstance(b, (ast.Subscript, ast.Attribute)):
+                b = b.value
+            if isinstance(b, ast.Name) and b.id in operands:
+                return True
     return False
 
 
@@ -1567,6 +1653,10 @@ def inline_new_temps(tree, ref_mod, ctype=None):
                        for x in ast.walk(n.value)):
                     continue
                 cands[nm] = n
+        # a temporary defined through another candidate is decided in a later round, with the composed expression (core.Source
+        # repeats the pass): each link of a chain alone may pass a test that the composition fails
+        for nm in [nm for nm, a in cands.items() if any(isinstance(x, ast.Name) and x.id in cands and x.id != nm for x in ast.walk(a.value))]:
+            cands.pop(nm)
         if not cands:
             continue
         alias_groups = _alias.groups(fn)
@@ -1618,6 +1708,11 @@ def inline_new_temps(tree, ref_mod, ctype=None):
             handle = isinstance(asg.value, (ast.Attribute, ast.Subscript, ast.Name)) and _effect_free_argument(asg.value) and n_uses == 1
             if mutated and not handle:
                 n_uses = 0
+            # a value that builds a NEW object (operator expression, display, call) read more than once: each use would get an object
+            # of its own - a write through one of them (out=, np.copyto, a call that is not known to only read) must reach the others
+            if n_uses > 1 and not isinstance(asg.value, (ast.Name, ast.Attribute, ast.Subscript, ast.Constant)) \
+                    and any(_writes_through(st, {nm}) for st in region):
+                n_uses = 0
             # soundness of moving the expression to its uses
             has_call = any(isinstance(x, ast.Await) or (isinstance(x, ast.Call) and not (
                 (isinstance(x.func, ast.Name) and x.func.id in _PURE_BUILTINS) or ast.unparse(x.func) in _PURE_DOTTED))
@@ -1635,9 +1730,8 @@ def inline_new_temps(tree, ref_mod, ctype=None):
                 direct = [k for k in use_stmts if _direct_use(region[k], nm)]
                 if not direct:
                     n_uses = 0
-                elif direct[0] != use_stmts[0] or any(not _direct_use(region[k], nm) for k in use_stmts):
-                    if any(isinstance(x, (ast.Return, ast.Raise, ast.Break, ast.Continue)) for st in region[:direct[0]] for x in ast.walk(st)):
-                        n_uses = 0
+                elif any(isinstance(x, (ast.Return, ast.Raise, ast.Break, ast.Continue)) for st in region[:direct[0]] for x in ast.walk(st)):
+                    n_uses = 0      # a guard clause between definition and use: the read would move behind the exit
             if use_stmts:
                 # nothing between the definition and the last use may change, in place, an object the expression is built from
                 # (`v[..] *= -1`, `xs.sort()`, `f(v)`) - for plain arithmetic on names as well: the names may be arrays
@@ -1889,8 +1983,8 @@ def hoist_walrus(tree):
             holder, field = None, None
             if isinstance(st, ast.If):
                 holder, field = st, "test"
-            elif isinstance(st, (ast.Assign, ast.Return, ast.Expr, ast.AugAssign)) and getattr(st, "value", None) is not None:
-                holder, field = st, "value"
+            elif isinstance(st, (ast.Assign, ast.Return, ast.Expr)) and getattr(st, "value", None) is not None:
+                holder, field = st, "value"       # (not `t op= v`: the target is loaded before the value)
             if holder is not None:
                 e = getattr(holder, field)
                 w, path = spine(e)
